@@ -656,7 +656,11 @@ def set_mixed_mm_fo_elimination(model: Model):
         cb.remove_flow(central, output)
         v = Expr.symbol('V')
         if v not in rate.free_symbols:
-            v = Expr.symbol('VC')
+            # take first parameter that starts with 'V' and is no longer than 2 characters
+            candidates = sorted(
+                name for name in map(str, rate.free_symbols) if name[0] == 'V' and len(name) <= 2
+            )
+            v = Expr.symbol(candidates[0] if candidates else 'VC')
         cb.add_flow(central, output, Expr.symbol('CL') / v + rate)
         statements = (
             model.statements.before_odes + CompartmentalSystem(cb) + model.statements.after_odes
